@@ -32,6 +32,18 @@ class Fold:
 
 
 @dataclass
+class DiffSpec:
+    """how to run a harness contract's function on generated spec values and what the contract expects"""
+    params: list                      # [(name, sort)] generated inputs
+    steps: object                     # callable(json values) -> realrun script steps; the LAST step's value is the result
+    expected: Optional[str] = None    # L1 expression over the params: the expected result
+    raises: list = field(default_factory=list)   # [(exception name, L1 Bool over the params)]
+    ret_sort: str = "Node"
+    gen: Optional[object] = None      # callable(Gen) -> {name: spec value} (targeted generation), else per-sort generation
+    requires: list = field(default_factory=list)
+
+
+@dataclass
 class InPlaceMap:
     """`for i, x in enumerate(r): r[i] = g(x)` (the only write is at index i) == r := fn(r), fn = map of `step`"""
     fn: str                       # L1 map function over the list sort (checked: fn(cons(c, r)) == cons(step, fn(r)))
@@ -105,6 +117,7 @@ class Contract:
     note: str = ""
     props: list = field(default_factory=list) # properties this contract serves
     harness: Optional[object] = None          # optional callable(interp) -> custom verification
+    diff: Optional[object] = None             # harness contracts: DiffSpec for the differential replay (real code vs executable spec)
     pure: bool = False                        # harness contracts: add the F:<fn>:reads-only obligation (no write outside the activation)
     inline: bool = False                      # callers execute the body instead of using the contract
     lemmas: list = field(default_factory=list)  # [(lemma name, {lemma var: contract param})] imported Lean theorems
